@@ -5,7 +5,7 @@
 (* The harness logs, per call: event, arguments, outcome (ok/err/panic),   *)
 (* result handle, the projected post-state, the position index and what    *)
 (* the public API answers.  No expected value is computed outside TLC.     *)
-EXTENDS StamApi, StamRead, StamSerial, StamAll, StamWebAnno, StamQuery, Json, IOUtils
+EXTENDS StamApi, StamRead, StamSerial, StamAll, StamWebAnno, StamQuery, Json, IOUtils, SequencesExt
 
 Rec == ndJsonDeserialize(IOEnv.TRACE)
 
@@ -121,6 +121,8 @@ RoundTrip(r) ==
 
 ReadOnly(r) ==
     LET v == IF r.ev = "Lookup" THEN ReadOK(st, r)
+             ELSE IF r.ev = "Query"
+                  THEN [ok |-> QueryOK(st, r), expected |-> LET e == EvalQ(st, <<>>, r.a.q) IN [ok |-> e.ok, rows |-> SetToSeq(e.rows)]]
              ELSE IF r.ev = "Parse"
                   THEN [ok |-> ParseOK(r), expected |-> [parse |-> TRUE]]
              ELSE IF r.ev = "WebAnno"
